@@ -15,11 +15,34 @@ META = {
             "specification directly.",
     "note": "Trusted: Lean kernel; axioms propext, Classical.choice, Quot.sound; model tied to the code by differential "
             "testing only; float TEXT (Rust's {} / {:e} / {:.1}, str::parse::<f64>, num-traits' radix float parser) and "
-            "float conversions are NOT modelled: theorems about doubles assume the FloatText structure (lexical shape "
-            "of the three formats, parse(print x) = x for finite x), and on the wire the harness supplies what Rust "
-            "produced; the shape hypotheses are checked on every double used. Radix printers were repaired "
-            "(fix commits) to print sign and magnitude; the pinned two's-complement behaviour is kept as a proved "
-            "counterexample.",
+            "float conversions (to_exact / to_inexact / BigRational::to_f64) are NOT modelled in this property's model "
+            "— they are fields of the parameter structure FloatOps: theorems about doubles assume the FloatText "
+            "structure (lexical shape of the three formats, parse(print x) = x for finite x), and on the wire the "
+            "harness supplies what Rust produced; the shape hypotheses are checked on every double used. (The pure "
+            "IEEE-754 rounding function Fl.rnd that C08's model uses for such conversions is no longer an assumption "
+            "there: Marwood.Proofs.C08.rnd_monotone, rnd_exact_on_doubles, rnd_relative_error prove it monotone, exact "
+            "on the values of finite doubles and within 2^-53 relative in the normal range — facts about the pure "
+            "implementation in Num/F64.lean; that hardware f64 operations and Rust's conversions equal rnd of the "
+            "exact result is still only validated bit-for-bit by the C08 streams. None of C16's theorems depends on "
+            "either.) Radix printers were repaired (fix commits) to print sign and magnitude; the pinned "
+            "two's-complement behaviour is kept as a proved counterexample. T16.3 (a prefixed literal denotes what "
+            "string->number gives) is now closed from the TEXT down, not only at token level: literal_denotes is the "
+            "token-level statement (prefix token + one Number/Symbol token => parse_number and string->number make "
+            "the same parse_with_exactness call); parseText_prefixed adds the scanner (the text '#'+letter+body, "
+            "body one Number or Symbol token before a delimiter, scans as exactly those two tokens and parse_text returns "
+            "that datum and no remaining text); exactDigits_one_token proves the body hypothesis for every printed "
+            "exact number in radix 2/8/10/16 (sign or decimal digit first: Number token; hex digit a-f first: Symbol "
+            "token, which parse_number accepts); literal_exact combines them with T16.1: for every well-formed exact "
+            "z and r in {2,8,10,16}, parse_text('#'+letter(r)+number->string(z,r)) = the number "
+            "string->number(number->string(z,r), r) returns = normalize z (exact, same value) — no hypothesis left; "
+            "literal_float is the same for finite doubles with #d under FloatText plus the one-token shape of the "
+            "printed double (a FloatLex-type hypothesis, checked on every double used). literal_exact_in_context "
+            "is the exact-number statement inside a program: followed by the end of text, a space or ')' and any further "
+            "text, the scanner yields prefix token, body token and the tokens of the rest, and parse returns "
+            "normalize z leaving exactly those tokens (the remaining-text computation of parse_text for that case is "
+            "C11's T11.4, not repeated here). Still carried by the correspondence only: prefixed literals whose body "
+            "is followed by other delimiters the scanner accepts (tab, newline, ';', '\"' ...), the #e/#i prefixes "
+            "and stacked prefixes (the printed-form-as-prefixed-literal stream uses single radix prefixes).",
     "technique": "Lean 4 proof (digit inverse by strong induction, structural sign and '/', parser fall-through) + randomized model-vs-implementation correspondence + implementation-vs-specification round trip",
 }
 MODULE = "Marwood.Proofs.C16"
@@ -30,6 +53,12 @@ THEOREMS = [
     "Marwood.Proofs.C16.exact_roundtrip",
     "Marwood.Proofs.C16.exact_roundtrip_proc",
     "Marwood.Proofs.C16.float_roundtrip",
+    "Marwood.Proofs.C16.literal_denotes",
+    "Marwood.Proofs.C16.parseText_prefixed",
+    "Marwood.Proofs.C16.exactDigits_one_token",
+    "Marwood.Proofs.C16.literal_exact",
+    "Marwood.Proofs.C16.literal_exact_in_context",
+    "Marwood.Proofs.C16.literal_float",
     "Marwood.Proofs.C16.pinned_twos_complement_not_inverse",
 ]
 PROFILE = "debug"
